@@ -20,6 +20,33 @@ def conv(SVG, src, c):
     return SVG.fromstring(src).topicosvg(ndigits=c["ndigits"], drop_unsupported=bool(c.get("drop_unsupported"))).tostring()
 
 
+def idem_special(rng):
+    """documents whose first pass ends in the closing clean-up: a translucent group that only the clean-up flattens (one
+    child unpainted), opacity products that need more decimals than ndigits, group opacities out of range"""
+    a, b = rng.choice([("0.5", "0.5"), ("0.3", "0.7"), ("0.25", "0.5"), ("0.9", "0.9"), ("0.5", "0.05")])
+    k = rng.random()
+    gone = rng.choice(['<path fill="none" d="M5,5 L40,5 L40,40 Z"/>', '<rect width="9" height="0"/>', '<circle r="5" display="none"/>'])
+    keep = '<path opacity="%s" fill="%s" d="M10,10 L60,10 L60,50 Z"/>' % (b, rng.choice(["red", "blue"]))
+    if k < 0.5:
+        kids = [gone, keep]
+        rng.shuffle(kids)
+        body = '<g opacity="%s">%s</g><path d="M50,50 L90,50 L90,90 Z"/>' % (a, "".join(kids))
+    elif k < 0.8:
+        body = ('<g opacity="%s"><path fill="red" d="M10,10 L60,10 L60,50 Z"/><path fill="blue" d="M30,20 L80,20 L80,70 Z"/></g>'
+                '<path d="M50,50 L90,50 L90,90 Z"/>' % rng.choice(["-0.2", "-1", "1.5", "0.9996", "0.0004"]))
+    else:
+        body = '<g opacity="%s"><g opacity="%s">%s%s</g>%s</g>' % (a, b, gone, keep, gone)
+    drop = False
+    if rng.random() < 0.25:
+        # a group that only the run after the drop_unsupported gate flattens, pushing down an opacity that rounds to 0
+        o1, o2 = rng.choice([("0.02", "0.02"), ("0.01", "0.04"), ("0.2", "0.002")])
+        body = ('<g opacity="%s"><path opacity="%s" d="M10,10 L50,10 L50,50 Z"/>%s</g><path d="M50,50 L90,50 L90,90 Z"/>'
+                % (o1, o2, rng.choice(['<image width="5" height="5"/>', "<foo/>"])))
+        drop = True
+    src = '<svg xmlns="http://www.w3.org/2000/svg" viewBox="0 0 100 100">%s</svg>' % body
+    return {"src": src, "ndigits": 3 if drop else rng.choice([0, 1, 1, 2, 3]), "allow_text": False, "drop_unsupported": drop, "kind": "idem-special"}
+
+
 def correspondence(ctx):
     n = 700 if ctx.thorough() else 110
     rng = ctx.rng
@@ -27,10 +54,10 @@ def correspondence(ctx):
     dis = []
     items = []
     for _ in range(n):
-        c = c01.gen_case(rng)
+        c = idem_special(rng) if rng.random() < 0.12 else c01.gen_case(rng)
         c["allow_text"] = False
         # dropping unsupported elements is part of the conversion too: keep the option a third of the time
-        c["drop_unsupported"] = bool(c.get("drop_unsupported")) and rng.random() < 0.7
+        c["drop_unsupported"] = bool(c.get("drop_unsupported")) and (c.get("kind") == "idem-special" or rng.random() < 0.7)
         o, out1 = common.outcome_of(lambda: conv(SVG, c["src"], c))
         ctx.count("pass1:" + o)
         if o != "ok":
